@@ -3,6 +3,9 @@ CONSTANTS
   MaxLen = 3
   SortedLen = 0
   NoForeignLen = 4
+  MatchGuard = "any_mapping"
+  ClipCheck = "raise"
+  Optimised = FALSE
   RepLen = 3
   OtherLen = 2
   WrapLen = 3
